@@ -112,8 +112,10 @@ CLAIMED["C11"] = dict(
     text="For ALL machines and states: what is recorded when states are exited is, for every history-owning state on their ancestor chains with active "
          "proper descendants, exactly those descendants in (depth, id) order, and nothing else changes (C11_record_is_last_exit); a never-visited "
          "history target expands to its default target / the parent's initial child / the parallel parent itself; a visited deep target to the "
-         "remembered leaves, a shallow one to the remembered children; a snapshot round trip keeps the history. Partial: that ENTERING the expansion "
-         "re-creates the remembered sub-configuration rests on the entry procedure, which is tied by correspondence only. Tied to the code by K-macro "
+         "remembered leaves, a shallow one to the remembered children; a snapshot round trip keeps the history; every state the target expands to "
+         "is active when the transition completes (C11_restored_states_active) and the configuration it leaves is legal - one leaf per region, the "
+         "restored one (C11_restore_is_legal, from the history-store invariant C11_store_consistent). Partial: that the restored sub-configuration "
+         "equals the remembered one state by state, and 'each restored state entered once', are decided by the monitor. Tied to the code by K-macro "
          "on history machines (shallow/deep x compound/parallel parents x nested x defaults x never/once/repeatedly visited) and an independent "
          "restore oracle in the monitor.",
     technique="Coq proof over executable history model + vm_compute correspondence",
@@ -126,7 +128,8 @@ CLAIMED["C12"] = dict(
          "order-independence theorems); persist(restore(persist s)) = persist s (C12_resnapshot); a snapshot is rejected iff it names a state the "
          "machine lacks. C12_restored_continues_alike: for EVERY continuation (any sequence of sends, sync engine, machines without transitions into "
          "the root or into history states) the restored interpreter and the original produce identical logs, context, history, status and output "
-         "and configurations equal as sets. Partial: history-targeting transitions and async continuations are checked by correspondence (every "
+         "and configurations equal as sets; C12_restored_continues_alike_h: the same with transitions into history states (what they restore comes "
+         "from the snapshot's history section). Partial: async continuations are checked by correspondence (every "
          "cut point k of random runs, restored vs uninterrupted, K-snap); JSON validity, isolation from later execution and corrupt-stream "
          "rejection are runtime monitors; child actors are outside Snap.v.",
     technique="Coq proof (sorting canonical under permutation; restore/persist round trip) + vm_compute correspondence (K-snap) + restore-vs-uninterrupted runs",
@@ -140,7 +143,8 @@ CLAIMED["C16"] = dict(
          "two states differing only in the listing order of the active set are taken by any sequence of sends to states that again differ only in "
          "that order, with IDENTICAL logs - a relational proof through selection, exit, actions, history, entry, done events, scheduling and "
          "rollback; the one order-sensitive read (the active child in the done-ness check) is harmless because the configuration is then contained "
-         "in a legal one. The model being a function, equal inputs give equal traces. Tied to the code by K-macro and by "
+         "in a legal one; the _h variants cover machines with transitions to history states (where the restored entry order was defect F3). "
+         "The model being a function, equal inputs give equal traces. Tied to the code by K-macro and by "
          "re-running the implementation in subprocesses under different PYTHONHASHSEED values / heap layouts / both engines with byte-for-byte trace "
          "comparison. Generated identifiers and actor ids are only covered by the subprocess comparison.",
     technique="Coq proof (permutation invariance via canonical sorting) + vm_compute correspondence + hash-seed subprocess differential",
@@ -148,17 +152,24 @@ CLAIMED["C16"] = dict(
 
 CLAIMED["C01"] = dict(
     category="proof",
-    text="THE INVARIANT IS PROVED for whole runs of both engines: C01_sync_runs_stay_legal / C01_async_runs_stay_legal - for EVERY well-formed "
-         "machine whose compound states declare a non-history initial child and none of whose transitions targets the machine root or a history "
-         "pseudo-state (four decidable side conditions), if start() does not fail then after ANY sequence of events the configuration is legal. "
+    text="THE INVARIANT IS PROVED for whole runs of both engines, HISTORY TARGETS INCLUDED: C01_sync_runs_stay_legal_h / C01_async_runs_stay_legal_h - "
+         "for EVERY well-formed machine whose compound states declare a non-history initial child, none of whose transitions targets the machine "
+         "root and whose history pseudo-states have a default target (if any) below their parent (four decidable side conditions), if start() does "
+         "not fail then after ANY sequence of events the configuration is legal and every remembered history list is the set of proper descendants "
+         "of its parent in some legal configuration. Transitions to history states (deep / shallow, recorded / never recorded, domain = the parent or "
+         "any ancestor, compound or parallel) are covered by C01_history_transition_preserves_legality: the combined entry path is a tree below the "
+         "domain whose entered set is, below each root, a complete sub-configuration (C01_tree_entry_legal); C01_history_store_invariant keeps the "
+         "history store consistent across completed and aborted transitions. The special case without history targets is C01_sync_runs_stay_legal / "
+         "C01_async_runs_stay_legal. "
          "Built from C01_initial_configuration_legal (induction over the default descent), C01_transition_effect (closed formula: configuration "
          "after a transition = before minus the exit list plus the entered set), C01_transition_preserves_legality (a replacement lemma over the "
          "state tree, for compound and parallel domains) and C01_event_preserves_legality (also when a transition aborts: rollback); "
          "C01_legal_is_the_definition ties the boolean test used everywhere to the property's five clauses. The invariant is REFUTED for the code at "
-         "HEAD for transitions targeting the machine root (C01_invariant_refuted = recorded finding F5). Partial: transitions targeting history "
-         "states are outside the theorems and decided by the correspondence (legality evaluated in Coq at every hook / subscriber / snapshot point "
-         "of every generated run: exhaustive small trees x all source/target pairs x both engines x pure API).",
-    technique="Coq proof (induction over runs: default descent, transition effect formula, subtree replacement lemma) + vm_compute correspondence (K-macro) + monitor",
+         "HEAD for transitions targeting the machine root (C01_invariant_refuted = recorded finding F5). Partial: a history state whose default "
+         "target is not a proper descendant of its parent is outside the theorems and decided by the correspondence (legality evaluated in Coq at "
+         "every hook / subscriber / snapshot point of every generated run: exhaustive small trees x all source/target pairs x both engines x pure "
+         "API) - which is how the defect repaired by the latest fix: commit (history child of an active parallel state targeted from inside it) was found.",
+    technique="Coq proof (induction over runs: default descent, transition effect formula, subtree / tree replacement lemmas, history-store invariant) + vm_compute correspondence (K-macro) + monitor",
     design_ref="DESIGN.md section 5 C01 and section A.3")
 CLAIMED["C03"] = dict(
     category="proof",
@@ -166,10 +177,13 @@ CLAIMED["C03"] = dict(
          "is an exit segment containing no entry, then the transition's actions with neither, then an entry segment containing no exit, and every "
          "user action in all three - including states reached by default descent - received the causing event; states are left in the order of the "
          "exit list, which is deepest first; the entry path is outermost first; the exit set is confined to the transition domain (sibling regions "
-         "untouched); targetless transitions run actions only. 'Never entered while active' is REFUTED at HEAD by a kernel-checked witness "
-         "(C03_enter_once_refuted = recorded finding F21). Partial: +1/0/-1 accounting per processed event is decided by the monitor and the "
-         "correspondence on exhaustive small trees with actions on every entry and exit.",
-    technique="Coq proof (log-segment invariants through entry / exit / actions; sortedness) + vm_compute correspondence (K-macro) + monitor",
+         "untouched); targetless transitions run actions only. EXACTLY-ONCE ACCOUNTING: C03_transition_log - the OLeave records of a completed "
+         "transition are exactly its exit list and its OEnter records exactly the entered set of its entry path(s), in order; "
+         "C03_exactly_once_accounting - out of a legal configuration (target neither root nor history) both lists are duplicate-free, only active "
+         "states are left, no state is entered while active, and a state is active afterwards iff it (was active and was not left) or was entered, "
+         "i.e. entries minus exits = change in activity. Partial: for history targets the accounting is decided by the monitor and the "
+         "correspondence on exhaustive small trees with actions on every entry and exit (former finding F21 there is repaired in /repo).",
+    technique="Coq proof (log-segment invariants through entry / exit / actions; sortedness; entered-set characterisation over the state tree) + vm_compute correspondence (K-macro) + monitor",
     design_ref="DESIGN.md section 5 C03")
 CLAIMED["C05"] = dict(
     category="proof",
